@@ -36,6 +36,8 @@ from vplib import parengine as pe
 
 WHAT = ("a cross-thread cycle returned a value different from the single-threaded evaluation, or a schedule "
         "deadlocked / exceeded the step bound / panicked")
+CIRCULAR = "transfer_target_search_wakes_wrong_thread"
+CIRCULAR_MSG = "Circular reference between blocked edges"
 KNOWN_NOTE = ("history-dependent single-threaded deviations of the cycle engine (C12 "
               "cycle_participant_validated_on_incomplete_edges; C13 fallback_participant_reexecuted_after_revision, "
               "fallback_cycle_not_redetected_member_validated, fallback_membership_change_not_propagated) met in a later "
@@ -84,7 +86,7 @@ def run(ctx):
     res, tdirs = parcheck.explore18(ctx, cases, harness, scheds, iters, out_root, trace_cap=3 if quick else 4)
 
     # ---- (a) + (b)
-    findings, known, lin = [], [], {}
+    findings, known, lin, circular = [], [], {}, []
     unwound = {}                       # case id -> {panic code: schedules}
     by_id = {c.split()[1]: c for c in cases}
     nlin = 200 if quick else 400
@@ -114,6 +116,12 @@ def run(ctx):
                     continue
                 if f["kind"] == "values" and f["detail"]["revision"] > 0 and lin_known(c, f["detail"]["request"], f["detail"]["got"]):
                     known.append((cid, sched, dict(iter=f["iter"], other_entry_order=True, **f["detail"])))
+                    continue
+                if (f["kind"] == "failure" and CIRCULAR_MSG in str(f["detail"].get("msg", ""))
+                        and any(k["property"] == ctx.prop and k["class"] == CIRCULAR for k in common.known_findings())):
+                    # salsa's own debug assertion of update_transferred_edges: the listed known finding of C19/C18
+                    # (checks/notes/C19-circular-blocked-edges.txt); recognised by the assertion itself
+                    circular.append((cid, sched, f["iter"]))
                     continue
                 findings.append((c, sched, f))
 
@@ -210,6 +218,10 @@ def run(ctx):
             ctx.violation(dict(kind="deviation class met that is not listed in known-findings.txt", deviation_class=cls,
                                example=(known[0][2] if cls.startswith("single") and known else {k: dict(v) for k, v in list(unwound.items())[:1]})),
                           no_input=True)
+    if circular:
+        kf = [k for k in common.known_findings() if k["property"] == ctx.prop and k["class"] == CIRCULAR]
+        ctx.known_finding(f"class={CIRCULAR} {kf[0]['text'] if kf else ''} (met in {len(circular)} explored schedules: "
+                          + ", ".join(f"{c}/{s}#{i}" for c, s, i in circular[:6]) + ")")
     if unwound:
         ctx.known_finding("class=backdate_violation_participant_after_head_backdated (C12/C13/C15, debug builds only) salsa's own "
                           f"backdate assertion fired in {sum(sum(v.values()) for v in unwound.values())} explored schedules of "
@@ -266,6 +278,7 @@ def run(ctx):
         "findings": len(findings),
         "differences_in_known_single_threaded_classes": len(known),
         "linearisation_searches": lin_runs,
+        "schedules_that_died_with_the_listed_circular_blocked_edges_assertion": len(circular),
         "schedules_in_which_something_unwound_under_shuttle": {cid: v for cid, v in list(unwound.items())[:20]},
         "unwinding_cases_reexamined_on_os_threads": os_part,
         "certificate": cert,
